@@ -185,9 +185,9 @@ var c02Captures = map[string][]world.Op{
 	// store, the second one is served the objects the first one put into the cache
 	"root+coldload-twice": {{Kind: world.OpKeep, A: 0, B: 0}, {Kind: world.OpFlushCache}, {Kind: world.OpLoad, A: 1, B: 0}, {Kind: world.OpLoad, A: 2, B: 0}},
 	// the version is captured after a MakeRoot that failed half-way (some nodes written, others not) and was retried
-	"failedflush0+root+load": {{Kind: world.OpPersistFail, A: 0, V: 0}, {Kind: world.OpKeep, A: 0, B: 0}, {Kind: world.OpLoad, A: 1, B: 0}},
-	"failedflush1+root+load": {{Kind: world.OpPersistFail, A: 0, V: 1}, {Kind: world.OpKeep, A: 0, B: 0}, {Kind: world.OpLoad, A: 1, B: 0}},
-	"failedflush2+root+load": {{Kind: world.OpPersistFail, A: 0, V: 2}, {Kind: world.OpKeep, A: 0, B: 0}, {Kind: world.OpLoad, A: 1, B: 0}},
+	"failedflush0+root+load":     {{Kind: world.OpPersistFail, A: 0, V: 0}, {Kind: world.OpKeep, A: 0, B: 0}, {Kind: world.OpLoad, A: 1, B: 0}},
+	"failedflush1+root+load":     {{Kind: world.OpPersistFail, A: 0, V: 1}, {Kind: world.OpKeep, A: 0, B: 0}, {Kind: world.OpLoad, A: 1, B: 0}},
+	"failedflush2+root+load":     {{Kind: world.OpPersistFail, A: 0, V: 2}, {Kind: world.OpKeep, A: 0, B: 0}, {Kind: world.OpLoad, A: 1, B: 0}},
 	"failedflush0+persist+clone": {{Kind: world.OpPersistFail, A: 0, V: 0}, {Kind: world.OpPersist, A: 0}, {Kind: world.OpClone, A: 0, B: 1}},
 	"failedflush1+persist+clone": {{Kind: world.OpPersistFail, A: 0, V: 1}, {Kind: world.OpPersist, A: 0}, {Kind: world.OpClone, A: 0, B: 1}},
 	"failedflush2+persist+clone": {{Kind: world.OpPersistFail, A: 0, V: 2}, {Kind: world.OpPersist, A: 0}, {Kind: world.OpClone, A: 0, B: 1}},
